@@ -70,6 +70,7 @@ def alphabet(typ):
         ops.append(["setmap"])      # user-chosen enumeration (documented set_mapping): later edits must keep the mapping a bijection
     if typ in ("PCBO", "PCSO"):
         ops += [["con", i] for i in range(len(CONSTRAINTS))]
+        ops.append(["update-model", [[[0], 1], [[1, 3], -2]]])      # update() with a fresh model of the same class (it has no ancillas)
     return ops
 
 
@@ -253,6 +254,8 @@ def make_step(typ, with_forms=True):
                 r, _w = call(f)
             elif name == "update":
                 r, _w = call(M.update, mkdict(typ, op[1]))
+            elif name == "update-model":
+                r, _w = call(M.update, type(M)(mkdict(typ, op[1])))
             elif name == "clear":
                 r, _w = call(M.clear)
             elif name == "refresh":
